@@ -88,7 +88,7 @@ def coq_makefile():
 
 def _coq_makefile():
     vs = []
-    for d in ("Model", "Proofs", "Props", "Extract"):
+    for d in ("Model", "Gen", "Proofs", "Props", "Extract"):
         for r, _, fs in os.walk(os.path.join(COQ, d)):
             for f in fs:
                 if f.endswith(".v"):
@@ -561,6 +561,10 @@ def run_property(spec, tier, seed, replay=None):
                     st = dict(st, replay_cases=p)
                     run_stage(ctx, st)
             return finish(ctx)
+    for fn in spec.get("pre", []):
+        # e.g. a translator that regenerates part of the model from /repo's current source
+        for msg in fn(ctx) or []:
+            ctx.problems.append(Problem("correspondence", msg))
     if "coq" in spec:
         coq_check(ctx)
         if tier == "thorough" and spec["coq"].get("coqchk", True):
@@ -585,6 +589,9 @@ def setup_all(specs):
         return 1
     targets, models, bins = [], [], []
     for sp in specs:
+        for fn in sp.get("pre", []):
+            for msg in fn(None) or []:
+                print("setup: pre-hook:", msg)
         c = sp.get("coq", {})
         pl = c.get("props", [])
         pl = pl if isinstance(pl, list) else [pl]
